@@ -10,7 +10,7 @@ shape it does not recognise.  What it extracts:
     checked; the two statuses it assigns      -> setexit_dead, setexit_other
   * the if/elif chains of _startresult / _signalresult / _clearresult as
     association lists  fault code -> wording   -> *_table ; the fall-through must be
-    `raise ValueError('Unknown result code %s for %s' % (code, name))`
+    `return template % (name, '<a>%s<b>%s<c>' % (code, description))` -> *_default
   * _stopresult = _signalresult(result, success=<word>) and the default of
     `success` in _signalresult                 -> stop_success, signal_success
   * the ignored_faultcode argument of every set_exitstatus_from_xmlrpc_fault call
@@ -112,7 +112,7 @@ def _wording_chain(fn, faults, has_success_param):
          [fault_string = result['description']]
          template = '%s: ERROR (%s)'
          if code == xmlrpc.Faults.X: return <wording> elif ...
-         raise ValueError('Unknown result code %s for %s' % (code, name))
+         return template % (name, '<a>%s<b>%s<c>' % (code, <description>))     (default wording)
     """
     body = [s for s in fn.body if not (isinstance(s, ast.Expr) and _str(s.value) is not None)]
     assigns = {}
@@ -135,17 +135,29 @@ def _wording_chain(fn, faults, has_success_param):
     if _str(assigns['template']) != '%s: ERROR (%s)':
         raise Reject('%s: template changed: %r' % (fn.name, _str(assigns['template'])))
     rest = body[i:]
-    if len(rest) != 2 or not isinstance(rest[0], ast.If) or not isinstance(rest[1], ast.Raise):
-        raise Reject('%s: expected one if/elif chain followed by raise' % fn.name)
-    # the fall-through
-    r = rest[1].exc
-    ok = (isinstance(r, ast.Call) and _is_name(r.func, 'ValueError') and len(r.args) == 1 and not r.keywords
-          and isinstance(r.args[0], ast.BinOp) and isinstance(r.args[0].op, ast.Mod)
-          and _str(r.args[0].left) == 'Unknown result code %s for %s'
-          and isinstance(r.args[0].right, ast.Tuple) and len(r.args[0].right.elts) == 2
-          and _is_name(r.args[0].right.elts[0], 'code') and _is_name(r.args[0].right.elts[1], 'name'))
-    if not ok:
-        raise Reject('%s: fall-through is not raise ValueError("Unknown result code %%s for %%s" %% (code, name))' % fn.name)
+    if len(rest) != 2 or not isinstance(rest[0], ast.If) or not isinstance(rest[1], ast.Return):
+        raise Reject('%s: expected one if/elif chain followed by `return template %% (name, <default wording>)`' % fn.name)
+    # the fall-through: return template % (name, '<fmt with two %s>' % (code, <description>))
+    r = rest[1].value
+    descr_ok = False
+    default = None
+    if (isinstance(r, ast.BinOp) and isinstance(r.op, ast.Mod) and _is_name(r.left, 'template')
+            and isinstance(r.right, ast.Tuple) and len(r.right.elts) == 2 and _is_name(r.right.elts[0], 'name')):
+        inner = r.right.elts[1]
+        if (isinstance(inner, ast.BinOp) and isinstance(inner.op, ast.Mod) and _str(inner.left) is not None
+                and isinstance(inner.right, ast.Tuple) and len(inner.right.elts) == 2
+                and _is_name(inner.right.elts[0], 'code')):
+            d = inner.right.elts[1]
+            if 'fault_string' in assigns and _is_name(d, 'fault_string'):
+                descr_ok = True
+            elif ast.dump(d) == ast.dump(ast.parse("result['description']").body[0].value):
+                descr_ok = True
+            fmt = _str(inner.left)
+            pieces = fmt.split('%s')
+            if len(pieces) == 3 and '%' not in ''.join(pieces):
+                default = tuple(pieces)
+    if not descr_ok or default is None:
+        raise Reject('%s: fall-through is not `return template %% (name, "<a>%%s<b>%%s<c>" %% (code, description))`' % fn.name)
     table = []
     node = rest[0]
     while True:
@@ -162,7 +174,7 @@ def _wording_chain(fn, faults, has_success_param):
         if len(node.orelse) != 1 or not isinstance(node.orelse[0], ast.If):
             raise Reject('%s: else branch in the chain' % fn.name)
         node = node.orelse[0]
-    return table
+    return table, default
 
 
 def _wording(fn, e, has_success_param, has_fault_string):
@@ -296,14 +308,14 @@ def extract():
     ctl = _cls(c, 'Controller')
     sx_dead, sx_other = _check_set_exitstatus(_func(ctl, 'set_exitstatus_from_xmlrpc_fault'), faults, lsbinit)
     plug = _cls(c, 'DefaultControllerPlugin')
-    start_t = _wording_chain(_func(plug, '_startresult'), faults, False)
+    start_t, start_d = _wording_chain(_func(plug, '_startresult'), faults, False)
     sigfn = _func(plug, '_signalresult')
     if [a.arg for a in sigfn.args.args] != ['self', 'result', 'success'] or len(sigfn.args.defaults) != 1 \
             or _str(sigfn.args.defaults[0]) is None:
         raise Reject('_signalresult: signature changed')
     signal_success = _str(sigfn.args.defaults[0])
-    signal_t = _wording_chain(sigfn, faults, True)
-    clear_t = _wording_chain(_func(plug, '_clearresult'), faults, False)
+    signal_t, signal_d = _wording_chain(sigfn, faults, True)
+    clear_t, clear_d = _wording_chain(_func(plug, '_clearresult'), faults, False)
     stopfn = _func(plug, '_stopresult')
     sb = [s for s in stopfn.body if not (isinstance(s, ast.Expr) and _str(s.value) is not None)]
     ok = (len(sb) == 1 and isinstance(sb[0], ast.Return) and isinstance(sb[0].value, ast.Call)
@@ -348,7 +360,7 @@ def extract():
     if api is None:
         raise Reject('rpcinterface.API_VERSION not found')
     return dict(faults=faults_l, lsbinit=lsbinit_l, lsbstat=lsbstat_l, dead=dead, sx_dead=sx_dead, sx_other=sx_other,
-                start_t=start_t, signal_t=signal_t, clear_t=clear_t, signal_success=signal_success,
+                start_t=start_t, signal_t=signal_t, clear_t=clear_t, start_d=start_d, signal_d=signal_d, clear_d=clear_d, signal_success=signal_success,
                 stop_success=stop_success, ignored=ignored, stopped=stopped, api=api)
 
 
@@ -398,6 +410,9 @@ def render(d):
     tbl('startresult_table', d['start_t'])
     tbl('signalresult_table', d['signal_t'])
     tbl('clearresult_table', d['clear_t'])
+    w('(* the fall-through of each chain: template % (name, a ++ str(code) ++ b ++ description ++ c) *)')
+    for nm, key in (('startresult', 'start_d'), ('signalresult', 'signal_d'), ('clearresult', 'clear_d')):
+        w('Definition %s_default : string * string * string := (%s, %s, %s).' % ((nm,) + tuple(coq_str(x) for x in d[key])))
     w('Definition signal_success : string := %s.' % coq_str(d['signal_success']))
     w('Definition stop_success : string := %s.' % coq_str(d['stop_success']))
     w('')
